@@ -107,6 +107,21 @@ pub fn k06t_7(p: &Pkt7) -> bool {
     matches!(p, Pkt7::Connected { ty: Ty7::Connect(rt), .. } | Pkt7::Connected { ty: Ty7::Token(rt), .. } if *rt == [0xff; 4])
 }
 
+/// the size limits alone (Coq: expressible7; a response token NONE is class K06T, not a size limit)
+pub fn limits7(p: &Pkt7) -> bool {
+    match p {
+        Pkt7::Connless { payload, .. } => payload.len() <= 1391,
+        Pkt7::Connected { ack, ty, .. } => {
+            *ack < 1024
+                && match ty {
+                    Ty7::Chunks(_, _, d) => d.len() <= 1393,
+                    Ty7::Close(r) => r.len() <= 127 && !r.contains(&0),
+                    _ => true,
+                }
+        }
+    }
+}
+
 pub fn expressible7(p: &Pkt7) -> bool {
     match p {
         Pkt7::Connless { payload, .. } => payload.len() <= 1391,
@@ -175,7 +190,7 @@ pub fn read7_raw(bytes: &[u8], cap: Option<usize>) -> ReadOut7 {
 pub fn read7_txt(r: &ReadOut7) -> (String, String) {
     match r {
         Ok(Ok((p, ws, vs))) => (
-            format!("ok {} w={} v={}", txt7(p), warns7(ws), join(vs)),
+            format!("ok {} w={} v={} c={}{}{}{}", txt7(p), warns7(ws), join(vs), k05_7(p) as u8, k06_7(p) as u8, k06t_7(p) as u8, limits7(p) as u8),
             format!("r7ok{}{}", &txt7(p)[..1], warns7(ws)),
         ),
         Ok(Err((e, ws))) => (format!("err {:?} w={}", e, warns7(ws)), format!("r7err{:?}{}", e, warns7(ws))),
